@@ -998,6 +998,10 @@ class Engine:
             return fv.fn(self, st, list(args), kwargs)
         if isinstance(fv, SFunc):
             return self.call_function(st, fv, args, kwargs, node)
+        if isinstance(fv, self.models.STypeName):
+            if fv.name in self.models.BUILTINS:
+                return self.models.BUILTINS[fv.name](self, st, list(args), kwargs)
+            raise Unsupported(f"call of type {fv.name}")
         if isinstance(fv, SClass):
             return self.models.construct(self, st, fv.ci, args, kwargs, node)
         if isinstance(fv, SExtMethod):
@@ -1021,7 +1025,8 @@ class Engine:
             if c is not None and not self.contracts.is_inline(qual) and qual != getattr(self, "verifying", None):
                 from . import verify
                 return verify.apply_contract(self, st, fv, c, args, kwargs, node)
-            if c is None and not self.contracts.is_inline(qual) and not fv.env and ".<locals>." not in qual and not self.pure:
+            if c is None and not self.contracts.is_inline(qual) and not fv.env and ".<locals>." not in qual and not self.pure \
+                    and not getattr(self, "inline_all", False):
                 if qual == getattr(self, "verifying", None):
                     raise Unsupported(f"recursion in {qual}")
                 ext = self.contracts.external_for(qual)
